@@ -79,6 +79,13 @@ def thread_runner(ctx: Context):
     return tr, f
 
 
+def _ancestors_of(pm, node):
+    cur = pm.get(id(node))
+    while cur is not None:
+        yield cur
+        cur = pm.get(id(cur))
+
+
 def r2(ctx: Context) -> None:
     ctx.rule("R2", "ThreadRunner._on_stop iterates the whole thread table; on every path of the loop body _kill_and_reroute is called for that entry's invocation; for a thread that is alive it is called before join() (after join the task may have completed and KILLED would be rejected)")
     tr, f = thread_runner(ctx)
@@ -127,16 +134,35 @@ def r2(ctx: Context) -> None:
         ok = ast.unparse(c.args[0]).endswith(".invocation_id") or ast.unparse(c.args[0]) in dn
         ctx.add("R2", f"{f.qualname}::kill-arg-is-entry-invocation", ok, f.loc(c), "" if ok else ast.unparse(c.args[0]))
     # alive branch: kill dominates join
-    ifs = [n for n in ast.walk(loop) if isinstance(n, ast.If) and "is_alive()" in ast.unparse(n.test) and not isinstance(n.test, ast.UnaryOp)]
-    if not ifs:
+    # (polarity-aware: the alive edge of `if t.is_alive()` is 'true', of `if not t.is_alive()` it is 'false')
+    tests = []
+    for n in g.nodes:
+        if n.kind == "test" and n.ast is not None and any(a is loop for a in _ancestors_of(pm, n.ast)):
+            t = n.ast
+            neg = False
+            while isinstance(t, ast.UnaryOp) and isinstance(t.op, ast.Not):
+                t, neg = t.operand, not neg
+            if isinstance(t, ast.Call) and call_name(t) == "is_alive":
+                tests.append((n, "false" if neg else "true"))
+    if not tests:
         ctx.fail("R2", f"{f.qualname}::alive-branch", f.loc(loop), "no `if <thread>.is_alive()` distinction")
         return
-    alive = ifs[0]
-    ks = [c for st in alive.body for c in ast.walk(st) if isinstance(c, ast.Call) and call_name(c) == "_kill_and_reroute"]
-    js = [c for st in alive.body for c in ast.walk(st) if isinstance(c, ast.Call) and call_name(c) == "join"]
-    dom = g.dominators(exc_edges=False)
-    ok = bool(ks) and all(any(kn_.id in dom.get(jn.id, set()) for k in ks for kn_ in cfg_node_of(g, f.node, k, pm)) for j in js for jn in cfg_node_of(g, f.node, j, pm))
-    ctx.add("R2", f"{f.qualname}::live-thread-rerouted-before-join", ok, f.loc(alive), "" if ok else "a live thread is joined before its invocation is killed-and-rerouted: the task can finish (or hang) first and the invocation is not released")
+    jn = {n.id for c in calls_in(loop) if call_name(c) == "join" for n in cfg_node_of(g, f.node, c, pm)}
+    bad_join = None
+    for tn, alive_label in tests:
+        stack = [s for s, lab in g.succ[tn.id] if lab == alive_label]
+        seen = set()
+        while stack:
+            x = stack.pop()
+            if x in seen or x in kn or x == h.id:
+                continue
+            seen.add(x)
+            if x in jn:
+                bad_join = g.nodes[x]
+                break
+            stack.extend(s for s, lab in g.succ[x] if lab != "exc")
+    ok = bool(kn) and bad_join is None
+    ctx.add("R2", f"{f.qualname}::live-thread-rerouted-before-join", ok, f.loc(bad_join.ast) if bad_join is not None and bad_join.ast is not None else f.loc(loop), "" if ok else "a live thread is joined before its invocation is killed-and-rerouted: the task can finish (or hang) first and the invocation is not released")
 
 
 def r3(ctx: Context, sm) -> None:
